@@ -327,6 +327,19 @@ pub fn c14_labels(v: &View, l: &mut Vec<&'static str>) {
     if es.len() >= 2 {
         l.push("actor_asks>=2");
     }
+    // an abandoned ask retried against the same callee while the callee is still busy with (or
+    // has not yet reached) the abandoned request
+    for e1 in &es {
+        let timed_out = v.op(e1.op).map(|o| matches!(o.res, Some(Res::ErrTimeout))).unwrap_or(false) || (e1.gone.is_some() && v.op(e1.op).map(|o| o.res.is_none()).unwrap_or(false));
+        if !timed_out {
+            continue;
+        }
+        for e2 in es.iter().filter(|e2| e2.x == e1.x && e2.y == e1.y && e2.b_seq > e1.b_seq) {
+            if e1.answered.map(|a| a > e2.b_seq).unwrap_or(false) {
+                l.push("retry_same_callee_while_abandoned_request_unfinished");
+            }
+        }
+    }
     l.sort();
     l.dedup();
 }
